@@ -18,7 +18,7 @@ func exhaustiveSets(depth int) [][]string {
 	// a small universe: key k1 with a valid YSSHCA certificate c1, an expired one c2, a certificate
 	// with a free-text KeyID c3; key k2 with a valid YSSHCA certificate c4
 	c1, c2, c3, c4 := "c1.k1.cur.ys.0", "c2.k1.past.ys.0", "c3.k1.cur.free.0", "c4.k2.cur.ystouch.0"
-	alphabet := []string{"list", "signers", "sign=" + c1, "sign=k1", "sign=" + c2, "add=" + c4 + ":63", "addhard=" + c1 + "=-", "addhard=" + c2 + "=-",
+	alphabet := []string{"list", "signers", "sign=" + c1, "sign=k1", "sign=" + c2, "sign256=" + c1, "sign512=k1", "add=" + c4 + ":63", "addhard=" + c1 + "=-", "addhard=" + c2 + "=-",
 		"addhard=" + c3 + "=796b", "remove=" + c1, "remove=k1", "removeall", "lock=7077", "unlock=7077", "unlock=6e6f", "uadd=k1:-", "uadd=" + c1 + ":63",
 		"uremove=k1", "uremoveall", "forward=c80102", "list!fail:list", "list!fail:remove", "sign=" + c1 + "!fail:sign", "addhard=" + c1 + "=-!fail:list"}
 	starts := []string{"-", "k1:-", "k1:-," + c1 + ":63", "k1:-," + c2 + ":-,k2:6b"}
@@ -212,7 +212,8 @@ func genOne(g *hx.Gen, i int) []string {
 		case r < 7:
 			op = "signers"
 		case r < 10:
-			op = "sign=" + blob()
+			// a plain sign request, or one that asks for an rsa-sha2 signature (signature flags 2 / 4)
+			op = g.Pick([]string{"sign=", "sign=", "sign=", "sign256=", "sign512="}) + blob()
 		case r < 12:
 			op = "add=" + ident()
 		case r < 15:
